@@ -419,3 +419,73 @@ def install_warning_counter():
     warnings.showwarning = showwarning
     warnings.simplefilter("default")
     # numpy RuntimeWarnings etc. are events, never verdicts
+
+
+# ---------------------------------------------------------------------------
+# the caller owns what a call returned
+def scribble(obj, _depth=0):
+    """Modify, in place and beyond recognition, an object that a library call RETURNED to the caller (or that the
+    caller handed in and may reuse afterwards): the caller owns it and may do with it what it likes.  Whatever the
+    library kept for itself must not depend on it.  Lists are emptied after their elements were scribbled on,
+    dictionaries emptied, numpy arrays overwritten, coordinates moved, timestamps changed, tracks moved / re-timed /
+    given a feature of the caller's own.  Returns the number of objects touched."""
+    n = 0
+    if obj is None or isinstance(obj, (str, bytes, int, float, bool, tuple, range)) or _depth > 3:
+        return 0
+    mod = type(obj).__module__
+    name = type(obj).__name__
+    try:
+        if isinstance(obj, list):
+            for x in list(obj)[:50]:
+                n += scribble(x, _depth + 1)
+            del obj[:]
+            obj.append("scribbled-by-the-caller")
+            return n + 1
+        if isinstance(obj, dict):
+            obj.clear()
+            obj["scribbled-by-the-caller"] = -1
+            return 1
+        if isinstance(obj, set):
+            obj.clear()
+            return 1
+        if mod == "numpy":
+            try:
+                obj[...] = -12345.678
+                return 1
+            except Exception:
+                return 0
+        if mod.startswith("tracklib"):
+            if name == "ObsTime":
+                obj.sec = (int(obj.sec) + 17) % 60
+                obj.min = (int(obj.min) + 3) % 60
+                obj.ms = (int(obj.ms) + 250) % 1000
+                return 1
+            if name in ("ENUCoords", "GeoCoords", "ECEFCoords"):
+                for g, s_ in (("getX", "setX"), ("getY", "setY"), ("getZ", "setZ")):
+                    getattr(obj, s_)(getattr(obj, g)() * 0.5 + 321.25)
+                return 1
+            if name == "Obs":
+                n += scribble(obj.position, _depth + 1)
+                n += scribble(obj.timestamp, _depth + 1)
+                if isinstance(getattr(obj, "features", None), list) and _depth >= 1:
+                    pass        # the values a track's observation carries are the track's business (see Track below)
+                return n
+            if name == "Track":
+                for o in list(obj.getObsList())[:2000]:
+                    n += scribble(o, _depth + 1)
+                if obj.size() >= 1:
+                    try:
+                        obj.createAnalyticalFeature("__of_the_caller", 7.0)
+                        n += 1
+                    except Exception:
+                        pass
+                return n
+            if name == "TrackCollection":
+                for t in list(obj.getTracks())[:50]:
+                    n += scribble(t, _depth + 1)
+                return n
+    except CaseTimeout:
+        raise
+    except Exception:
+        return n
+    return n
